@@ -611,6 +611,9 @@ def mpo_cell(cell, common):
 #                     Part C: TEBD histories (seq engine)                     #
 # --------------------------------------------------------------------------- #
 
+# manually driven steps: own step size or the current one, queued for merging
+# with the next step (the state then lags by the pending sweep) or not
+STEP_EVENTS = [("step", dtk, q) for dtk in (None, 0.03, 0.07) for q in (False, True)]
 TOLS = {1: 0.05, 2: 5e-3, 4: 5e-5}  # tol mode: a few steps per target at every order
 CYC_STEP_CAP = {1: 5, 2: 4, 4: 1}  # periodic chains: bond dimension guard (DESIGN C11)
 MAX_REF_STEPS = 80
@@ -693,12 +696,14 @@ class TebdCase(seq.Case):
         }
 
     def root_for(self, w, clause):
-        f = self.facts(w)
-        if f["boundary_asym"] and clause in ("state", "norm", "convergence"):
-            return "pair-orientation"
+        if clause in ("state", "norm") and getattr(w, "pending_dt_change", False):
+            # structural fact of the history: a sweep was still queued (its
+            # length is stored as a fraction of the current step) when this
+            # event changed the step size
+            return "queued-sweep-dt-change"
         if clause == "norm" and self.imag and self.cyclic:
             return "imag-renorm-cyclic"
-        if clause == "norm" and self.imag and self.order == 1:
+        if clause == "norm" and self.imag and (self.order == 1 or w.last_dir[0] == 1):
             return "imag-renorm-ends-on-left-sweep"
         return "tebd-" + clause
 
@@ -706,6 +711,8 @@ class TebdCase(seq.Case):
         sig = dict(root=self.root_for(w, clause), entry="TEBD", check=clause)
         if sig["root"].startswith("tebd-"):
             sig.update(cyclic=self.cyclic, order=self.order)
+            if self.cyclic:
+                sig.update(boundary_asym=self.facts(w)["boundary_asym"])
         return core.problem("%s [L=%d cyclic=%s order=%d mode=%r imag=%s t0=%r h2=%s]" % (msg, self.L, self.cyclic, self.order, self.mode, self.imag, self.t0, self.h2), **sig)
 
     # ---- world ------------------------------------------------------------- #
@@ -739,8 +746,11 @@ class TebdCase(seq.Case):
         v0 = _dense(psi0)
         w.norm0 = float(np.linalg.norm(v0))
         w.refs = [v0.copy() for _ in range(self.n_variants())]
+        w.pending = [None] * self.n_variants()  # reference: queued, not yet performed sweep
+        w.last_dir = [None] * self.n_variants()  # direction of the last performed sweep
         w.t = self.t0
         w.last_dt = self.mode[1] if self.mode[0] == "dt" else None
+        w.has_dt = self.mode[0] == "dt"  # the library has some current step to scale fractions with
         w.steps = 0
         w.expm_cache = {}
         return w
@@ -770,40 +780,46 @@ class TebdCase(seq.Case):
         # order convergence), so all four readings are accepted
         return 4 if (self.cyclic and self.L % 2 == 1) else 1
 
-    def r_sweeps(self, w, sweeps):
-        """apply a list of (direction, tau) sweeps to every reference variant;
-        sweeps is a dict merged?->list"""
+    def r_requests(self, w, reqs):
+        """Feed sweep requests (direction, tau, queue, internal) to every
+        reference variant.  Documented queue semantics: a queued sweep is
+        merged with the next one of the same direction, performed when one of
+        the other direction arrives, and drained first by any unqueued sweep.
+        ``internal`` marks the whole-step sweeps update_to queues itself: the
+        'unmerged' variants of odd periodic chains perform those directly."""
         z0 = -1.0 if self.imag else -1.0j
+        single = len(w.refs) == 1
         for variant in range(len(w.refs)):
+            follows_queue = single or (variant // 2 == 1)
             groups = self.sweeps(variant % 2)
-            v = w.refs[variant]
-            for k, tau in sweeps[variant // 2 == 1]:
+            st = {"v": w.refs[variant], "last": w.last_dir[variant]}
+
+            def perform(k, tau, st=st, groups=groups):
+                v = st["v"]
                 for b in groups[k]:
                     v = ref.apply_op(self.r_gate(w, b, z0 * tau), v, [2] * self.L, list(b))
-            if self.imag:
-                v = _unit(v)
-            w.refs[variant] = v
+                st["v"], st["last"] = v, k
 
-    def r_sweep_lists(self, plan):
-        """sweep lists of an update with step plan ``plan`` (whole steps then
-        the remainder): unmerged, and with consecutive same-direction sweeps of
-        the whole steps merged (the final step is never merged)."""
-        out = {}
-        for merged in (False, True):
-            sw = []
-            for h in plan[:-1]:
-                for k, f in r_schedule(2, self.order):
-                    if merged and sw and sw[-1][0] == k:
-                        sw[-1][1] += f * h
+            pend = w.pending[variant]
+            for k, tau, queue, internal in reqs:
+                if queue and (follows_queue or not internal):
+                    if pend is not None and pend[0] == k:
+                        pend = [k, pend[1] + tau]
                     else:
-                        sw.append([k, f * h])
-            for k, f in r_schedule(2, self.order):
-                sw.append([k, f * plan[-1]])
-            out[merged] = sw
-        return out
+                        if pend is not None:
+                            perform(*pend)
+                        pend = [k, tau]
+                else:
+                    if pend is not None:
+                        perform(*pend)
+                        pend = None
+                    perform(k, tau)
+            w.pending[variant] = pend
+            w.last_dir[variant] = st["last"]
+            w.refs[variant] = _unit(st["v"]) if self.imag else st["v"]
 
-    def r_step(self, w, dt):
-        self.r_sweeps(w, self.r_sweep_lists([dt]))
+    def r_step(self, w, dt, queue=False):
+        self.r_requests(w, [(k, f * dt, queue, False) for k, f in r_schedule(2, self.order)])
         w.steps += 1
 
     def r_plan(self, t, T, dt):
@@ -819,13 +835,17 @@ class TebdCase(seq.Case):
         return plan
 
     def r_update(self, w, T, dt):
-        if dt is None:  # zero interval in tol mode that the library accepted
+        zero = dt is None  # empty interval in tol mode: no step size is defined by it
+        if zero:
             dt = 1.0
         plan = self.r_plan(w.t, T, dt)
-        self.r_sweeps(w, self.r_sweep_lists(plan))
+        reqs = [(k, f * h, True, True) for h in plan[:-1] for k, f in r_schedule(2, self.order)]
+        reqs += [(k, f * plan[-1], False, False) for k, f in r_schedule(2, self.order)]
+        self.r_requests(w, reqs)
         w.steps += len(plan)
         w.t = T
-        w.last_dt = dt
+        w.last_dt = None if zero else dt
+        w.has_dt = True
 
     def r_dt(self, w, T, dt=None, tol=None):
         """effective step of an update: explicit/default dt, or the documented
@@ -847,7 +867,7 @@ class TebdCase(seq.Case):
         """how many library steps the event will take (for the periodic cap)"""
         k = e[0]
         try:
-            if k == "step" or k == "step_dt":
+            if k == "step":
                 return 1
             if k in ("update_to", "update_to_dt", "update_to_tol"):
                 dt, why = self.r_dt(w, e[1], dt=e[2] if k == "update_to_dt" else None, tol=e[2] if k == "update_to_tol" else None)
@@ -875,11 +895,11 @@ class TebdCase(seq.Case):
         t0 = self.t0
         r = lambda x: round(t0 + x, 10)
         if self.cyclic:
-            ev = [("update_to", r(0.1)), ("update_to", r(0.15)), ("update_to", r(0.2)), ("step",), ("step_dt", 0.05), ("at_times", (r(0.1), r(0.2)))]
+            ev = [("update_to", r(0.1)), ("update_to", r(0.15)), ("update_to", r(0.2))] + STEP_EVENTS + [("at_times", (r(0.1), r(0.2)))]
             if self.rich:
                 ev += [("update_to_dt", r(0.2), 0.07)]
         else:
-            ev = [("update_to", r(0.07)), ("update_to", r(0.1)), ("update_to", r(0.25)), ("update_to", r(0.3)), ("step",), ("step_dt", 0.05), ("at_times", (r(0.1), r(0.25))), ("at_times", (r(0.3), r(0.07), r(0.3)))]
+            ev = [("update_to", r(0.07)), ("update_to", r(0.1)), ("update_to", r(0.25)), ("update_to", r(0.3))] + STEP_EVENTS + [("at_times", (r(0.1), r(0.25))), ("at_times", (r(0.3), r(0.07), r(0.3)))]
             if self.rich:
                 ev += [("update_to_dt", r(0.2), 0.04), ("update_to_tol", r(0.2), TOLS[self.order] * 2)]
         # backward targets are all rejected by the same guard: one
@@ -892,8 +912,8 @@ class TebdCase(seq.Case):
         for e in ev:
             if e in drop:
                 continue
-            if e[0] in ("step", "step_dt") and w.last_dt is None:
-                continue  # no step size defined yet (tol mode before any update)
+            if e[0] == "step" and (not w.has_dt or (e[1] is None and w.last_dt is None and self.mode[0] != "dt")):
+                continue  # no step size defined (tol mode before any update / after an empty one)
             sp = self.tol_span(w, e)
             if sp is not None and -1e-13 <= sp < 0:
                 # a NEGATIVE interval within TARGET_TOL passes the backwards
@@ -926,7 +946,11 @@ class TebdCase(seq.Case):
     # ---- transitions ------------------------------------------------------- #
     def observe(self, w):
         te = w.te
-        return {"t": float(te.t), "err": float(te.err), "v": _dense(te.pt), "queued": getattr(te, "_queued_sweep", None)}
+        q = getattr(te, "_queued_sweep", None)
+        # a queued sweep is stored as a fraction of the current step: what
+        # matters (and must survive a rejected call) is its length of time
+        qq = (q[0], round(float(q[1]) * float(te._dt), 12)) if q else None
+        return {"t": float(te.t), "err": float(te.err), "v": _dense(te.pt), "queued": qq, "pending_ref": w.pending[0] is not None}
 
     def pre(self, w, e):
         o = self.observe(w)
@@ -940,6 +964,8 @@ class TebdCase(seq.Case):
         order = self.order
         obs = {"kind": k, "checks": []}
         t_before = float(te.t)
+        w.pending_dt_change = False
+        had_pending, dt_before = w.pending[0] is not None, w.last_dt
         if k == "update_to":
             te.update_to(e[1], order=order)
             dt, why = self.r_dt(w, e[1])
@@ -954,16 +980,19 @@ class TebdCase(seq.Case):
             dt, why = self.r_dt(w, e[1], tol=e[2])
             self.r_update(w, e[1], dt)
             obs["checks"].append((e[1], self.observe(w), [x.copy() for x in w.refs]))
-        elif k in ("step", "step_dt"):
-            if k == "step":
-                te.step(order=order)
-            else:
-                te.step(order=order, dt=e[1])
+        elif k == "step":
+            dtk, queue = e[1], bool(e[2])
+            kw = {}
+            if dtk is not None:
+                kw["dt"] = dtk
+            if queue:
+                kw["queue"] = True
+            te.step(order=order, **kw)
             delta = float(te.t) - t_before
-            allowed = [e[1]] if k == "step_dt" else [x for x in ((self.mode[1] if self.mode[0] == "dt" else None), w.last_dt) if x is not None]
+            allowed = [dtk] if dtk is not None else [x for x in ((self.mode[1] if self.mode[0] == "dt" else None), w.last_dt) if x is not None]
             obs["delta"] = (delta, allowed)
             h = min(allowed, key=lambda x: abs(x - delta))
-            self.r_step(w, h)
+            self.r_step(w, h, queue=queue)
             w.t = w.t + h
             obs["checks"].append((w.t, self.observe(w), [x.copy() for x in w.refs]))
         elif k == "at_times":
@@ -986,6 +1015,7 @@ class TebdCase(seq.Case):
         else:
             raise KeyError(k)
         obs["advanced"] = float(te.t) - t_before
+        w.pending_dt_change = bool(had_pending and k != "step" and w.last_dt != dt_before)
         return obs
 
     def check(self, w, e, obs, pre):
@@ -1007,8 +1037,8 @@ class TebdCase(seq.Case):
         for T, o, refs in obs["checks"]:
             if abs(o["t"] - T) > 1e-13:
                 probs.append(self.prob(w, "time", "after %r t=%r, requested %r" % (e, o["t"], T)))
-            if o["queued"]:
-                probs.append(self.prob(w, "queue", "after %r a sweep is still queued: %r" % (e, o["queued"])))
+            if bool(o["queued"]) != o["pending_ref"]:
+                probs.append(self.prob(w, "queue", "after %r the library %s a queued sweep (%r) but %s" % (e, "holds" if o["queued"] else "does not hold", o["queued"], "every requested sweep should have been performed" if not o["pending_ref"] else "the last requested sweep should still be pending")))
             if not (np.isfinite(o["err"]) and o["err"] >= err_prev - 1e-15):
                 probs.append(self.prob(w, "err", "err went from %r to %r on %r" % (err_prev, o["err"], e)))
             err_prev = o["err"]
@@ -1036,6 +1066,21 @@ class TebdCase(seq.Case):
                 out.append(p)
         return out
 
+    def pending_dt_change(self, w, e):
+        """structural fact: a sweep is still queued and the event derives a
+        different step size (root cause queued-sweep-dt-change)"""
+        k = e[0]
+        if w.pending[0] is None or k not in ("update_to", "update_to_dt", "update_to_tol", "at_times"):
+            return False
+        if self.expected_rejection(w, e) is not None:
+            return False
+        T = e[1] if k != "at_times" else sorted(e[1])[-1]
+        dt, why = self.r_dt(w, T, dt=e[2] if k == "update_to_dt" else None, tol=e[2] if k == "update_to_tol" else None)
+        return bool(why or dt != w.last_dt)
+
+    def pending_problem(self, w, e, exc):
+        return [core.problem("%r with a sweep still queued raised %s: %s (the queued fraction is applied with the new step)" % (e, type(exc).__name__, str(exc)[:80]), root="queued-sweep-dt-change", entry="TEBD", check="exception")]
+
     def zero_interval(self, w, e):
         """root cause computed from the case: the step is derived from a
         tolerance and the requested interval is empty (tol / 0 -> inf)"""
@@ -1060,12 +1105,19 @@ class TebdCase(seq.Case):
     def check_rejected(self, w, e, exc, pre):
         probs = []
         want = pre["expected_rejection"]
+        if want is None and self.pending_dt_change(w, e):
+            return self.pending_problem(w, e, exc)
         if want is None and self.zero_interval(w, e):
             return [core.problem("%r at t=%r with a tolerance instead of a step raised %s: %s (choose_time_step divides by the zero interval)" % (e, w.t, type(exc).__name__, str(exc)[:80]), root="tol-zero-interval", entry="TEBD", check="exception")]
         if want is None or not isinstance(exc, want):
             probs.append(self.prob(w, "reject", "%r raised %s(%s) although nothing documented forbids it" % (e, type(exc).__name__, str(exc)[:80])))
         o = self.observe(w)
-        if o["t"] != pre["t"] or o["err"] != pre["err"] or _maxdiff(o["v"], pre["v"]) > 1e-13 or o["queued"]:
+        if o["t"] == pre["t"] and o["err"] == pre["err"] and _maxdiff(o["v"], pre["v"]) <= 1e-13 and o["queued"] != pre["queued"] and w.pending[0] is not None and e[0] == "at_times":
+            # at_times derives the step before it rejects a backward target:
+            # same root cause as queued-sweep-dt-change (structural: sweep
+            # pending + step re-derived)
+            probs.append(core.problem("rejected %r changed the length of the queued sweep from %r to %r (the step was re-derived while a sweep was pending)" % (e, pre["queued"], o["queued"]), root="queued-sweep-dt-change", entry="TEBD", check="reject-intact"))
+        elif o["t"] != pre["t"] or o["err"] != pre["err"] or _maxdiff(o["v"], pre["v"]) > 1e-13 or o["queued"] != pre["queued"]:
             probs.append(self.prob(w, "reject-intact", "rejected %r changed the observable state (t %r->%r)" % (e, pre["t"], o["t"])))
         return probs
 
@@ -1073,6 +1125,8 @@ class TebdCase(seq.Case):
         if isinstance(exc, core.HarnessError):
             raise exc
         k = e[0]
+        if self.pending_dt_change(w, e):
+            return self.pending_problem(w, e, exc)
         if self.zero_interval(w, e):
             return [core.problem("%r at t=%r with a tolerance instead of a step raised %s: %s (choose_time_step divides by the zero interval)" % (e, w.t, type(exc).__name__, str(exc)[:80]), root="tol-zero-interval", entry="TEBD", check="exception")]
         return [core.problem("%r raised %s: %s" % (e, type(exc).__name__, str(exc)[:200]), root="unexpected-exception", entry="TEBD", event=k, exc=type(exc).__name__)]
@@ -1505,32 +1559,74 @@ def gen_cells(thorough):
 # --------------------------------------------------------------------------- #
 
 
-def cache_cell(cell, common):
-    """get_gate_expm must be the exponential of the CURRENT term also after
-    apply_to_arrays.  LocalHamGen caches exponentials under (id(term), x), so
-    the question is whether apply_to_arrays invalidates that cache.  Three
-    modes, each with a verdict that does not depend on the allocator:
+CACHE_ID_POS = {
+    # cache name -> positions of id() values inside a key (None: key is the id)
+    "convert_from_qarray": None,
+    "flip": None,
+    "op_id": None,
+    "id_op": None,
+    "add": (0, 1),
+    "div": (0,),
+    "expm": (0,),
+}
 
-    held      fn returns new arrays, the caller keeps the originals alive: no
-              id can be re-used, the exponentials must simply be right
+
+def _key_ids(name, key):
+    """the id() values a cache key carries (known layouts by position, any
+    other layout: every int found in the key)"""
+    pos = CACHE_ID_POS.get(name, "scan")
+    if pos is None:
+        return [key] if isinstance(key, int) else []
+    if pos == "scan":
+        ks = key if isinstance(key, tuple) else (key,)
+        return [k for k in ks if isinstance(k, int) and not isinstance(k, bool)]
+    if isinstance(key, tuple):
+        return [key[i] for i in pos if i < len(key) and isinstance(key[i], int)]
+    return []
+
+
+def _cache_ids(ham):
+    """ids of every array held as a VALUE of any cache (arrays derived from
+    the terms: flips, sums, exponentials ...)"""
+    out = set()
+    cache = getattr(ham, "_op_cache", None)
+    if not hasattr(cache, "items"):
+        return out
+    for name, sub in cache.items():
+        if hasattr(sub, "values"):
+            out.update(id(v) for v in sub.values())
+    return out
+
+
+def cache_cell(cell, common):
+    """get_gate / get_gate_expm, asked for in BOTH orientations of every pair,
+    must describe the CURRENT terms also after apply_to_arrays.  LocalHamGen
+    keeps id()-keyed caches (flip, add, div, op_id, id_op, convert_from_qarray,
+    expm), so the question is whether apply_to_arrays invalidates all of them.
+    Three modes, each with a verdict that does not depend on the allocator:
+
+    held      fn returns new arrays, the caller keeps the originals alive
     inplace   fn changes the array in place and returns the same object (same
-              id, new content): purely behavioural, public API only
-    released  fn returns new arrays and nobody holds the originals.  Whether
-              CPython then hands a dead id to a new term (and the cache answers
-              with the exponential of a DIFFERENT old term) is up to the
-              allocator, so that is not what is judged: the verdict is
-              structural - after apply_to_arrays no cached exponential may be
-              keyed on the id of an array that was released.  Only if the
-              cache layout is not the known one (another quimb) the
-              behavioural comparison decides."""
+              id, new content)
+    released  fn returns new arrays and nobody holds the originals (whether
+              CPython then re-uses a dead id is up to the allocator and is NOT
+              what is judged)
+
+    Verdict = (a) structural, right after apply_to_arrays: no entry of any
+    cache may be keyed on the id of a term array from before the call or of
+    an array derived from one (a cached flip, sum, ...); (b) behavioural:
+    every gate and exponential in both orientations equals the numpy
+    reference of the current term; every flip / expm cache entry that belongs
+    to a live term equals its reference."""
     import gc
 
+    import quimb as qu
     import quimb.tensor as qtn
 
     cell = dict(cell)
-    L, mode, fn, h1 = cell["L"], cell["mode"], cell["fn"], bool(cell["h1"])
-    x = {"real": 0.1, "imag": -0.2j}[cell["x"]]
-    sig = dict(root="expm-cache-stale", entry="LocalHamGen.apply_to_arrays", check="expm-after-apply_to_arrays", mode=mode)
+    L, mode, fn, h1, cyc, kind = cell["L"], cell["mode"], cell["fn"], bool(cell["h1"]), bool(cell["cyclic"]), cell["kind"]
+    xs = (0.1, -0.2j)
+    base = dict(root="expm-cache-stale", entry="LocalHamGen.apply_to_arrays", mode=mode)
     if mode == "inplace":
         def f(a):
             if fn == "scale":
@@ -1542,45 +1638,81 @@ def cache_cell(cell, common):
             return a
     else:
         f = {"scale": (lambda a: 2.0 * a), "conj": (lambda a: a.conj().T.copy()), "shift": (lambda a: a + 0.25 * np.eye(a.shape[0]))}[fn]
-    # generic (non-Hermitian) data, so that every fn really changes the term
-    H2 = {(i, i + 1): two_site(("cache", L, i), "generic") for i in range(L - 1)}
+    # generic (non-Hermitian, not exchange symmetric) data, so that every fn
+    # and every flip really changes the term; boundary bond given as (L-1, 0)
+    bonds = [(i, i + 1) for i in range(L - 1)] + ([(L - 1, 0)] if cyc else [])
+    H2 = {b: two_site(("cache", L, b[0]), "generic") for b in bonds}
     H1 = {i: one_site(("cache", L, i), "generic") for i in range(L)} if h1 else None
-    ham = qtn.LocalHam1D(L, H2=H2, H1=H1)
+    if kind == "qarr":
+        H2 = {k: qu.qarray(v) for k, v in H2.items()}
+    ham = qtn.LocalHam1D(L, H2=H2, H1=H1, cyclic=cyc)
     keys = sorted(ham.terms)
-    want = {k: ref.expm_general(x * f(np.array(ham.terms[k], copy=True))) for k in keys}
-    for k in keys:
-        ham.get_gate_expm(k, x)
-    old_ids = sorted(id(v) for v in ham.terms.values())  # integers only, no references
+    want = {k: f(np.array(ham.terms[k], copy=True)) for k in keys}
+
+    def request_all():
+        """every gate and exponential, both orientations -> worst deviation
+        from the reference of ``cur`` (dict of current reference terms)"""
+        worst, where = 0.0, None
+        for k in keys:
+            cur = np.array(ham.terms[k], copy=True)
+            for w_, t in ((k, cur), ((k[1], k[0]), r_flip(cur))):
+                e = _maxdiff(np.asarray(ham.get_gate(w_)), t)
+                for x in xs:
+                    e = max(e, _maxdiff(np.asarray(ham.get_gate_expm(w_, x)), ref.expm_general(x * t)))
+                if e > worst:
+                    worst, where = e, w_
+        return worst, where
+
+    e0, w0 = request_all()
+    if e0 > 1e-10:
+        return table.bad(core.problem("before apply_to_arrays: gate / exponential at %r off by %.3g" % (w0, e0), root="gate-both-orientations", entry="LocalHamGen.get_gate_expm", check="before"))
+    old_ids = set(id(v) for v in ham.terms.values()) | _cache_ids(ham)  # integers only
     if mode == "released":
         del H2, H1
         gc.collect()
     ham.apply_to_arrays(f)
     if mode == "released":
         gc.collect()
-        cache = getattr(ham, "_op_cache", None)
-        ex = cache.get("expm") if hasattr(cache, "get") else None
-        known_layout = isinstance(ex, dict) and all(isinstance(k, tuple) and len(k) == 2 and isinstance(k[0], int) for k in ex)
-        if known_layout:
-            stale = sorted(k[0] for k in ex if k[0] in set(old_ids))
-            if stale:
-                return table.bad(core.problem("after apply_to_arrays %d of %d cached exponentials are still keyed on the id() of term arrays that were replaced and released: the next array CPython allocates at such an address gets the exponential of an old, different term from get_gate_expm (L=%d, fn=%s)" % (len(stale), len(ex), L, fn), **sig))
-    worst = max(_maxdiff(np.asarray(ham.get_gate_expm(k, x)), want[k]) for k in keys)
-    cur_ok = max(_maxdiff(ref.expm_general(x * np.array(ham.terms[k], copy=True)), want[k]) for k in keys) <= 1e-10
-    if not cur_ok:
+    if max(_maxdiff(np.asarray(ham.terms[k]), want[k]) for k in keys) > 1e-12:
         return table.bad(core.problem("apply_to_arrays did not apply fn to the terms (L=%d, fn=%s, mode=%s)" % (L, fn, mode), root="apply-to-arrays", entry="LocalHamGen.apply_to_arrays", check="terms", mode=mode))
-    if worst > 1e-10:
-        return table.bad(core.problem("after apply_to_arrays(%s, %s) get_gate_expm(where, %r) is not the exponential of the current term (off by %.3g): cached exponentials are keyed on id(term) and were not invalidated (L=%d, h1=%s)" % (fn, mode, x, worst, L, h1), **sig))
-    return table.ok(key=core.sig_key(cell), nontrivial=True, outcome="cache:%s" % mode)
+    # ---- (a) structural, before anything is requested again --------------- #
+    cache = getattr(ham, "_op_cache", None)
+    if hasattr(cache, "items"):
+        stale = collections.Counter()
+        for name, sub in cache.items():
+            if not hasattr(sub, "keys"):
+                continue
+            for key in sub.keys():
+                if any(i in old_ids for i in _key_ids(name, key)):
+                    stale[name] += 1
+        if stale:
+            return table.bad(core.problem("right after apply_to_arrays the operation caches still hold entries keyed on the id() of term arrays from before the call (or of arrays derived from them): %r - a later request through such an id returns data of the OLD term (L=%d cyclic=%s fn=%s h1=%s kind=%s)" % (dict(sorted(stale.items())), L, cyc, fn, h1, kind), check="cache-keys", caches="+".join(sorted(stale)), **base))
+    # ---- (b) behavioural --------------------------------------------------- #
+    e1, w1 = request_all()
+    if e1 > 1e-10:
+        return table.bad(core.problem("after apply_to_arrays(%s, %s) the gate / exponential asked for as %r is not that of the current term (off by %.3g) (L=%d cyclic=%s h1=%s kind=%s)" % (fn, mode, w1, e1, L, cyc, h1, kind), check="gates-after", **base))
+    if hasattr(cache, "items"):
+        live = {id(v): np.asarray(v) for v in ham.terms.values()}
+        fl = cache.get("flip", {}) if hasattr(cache, "get") else {}
+        for i, v in list(fl.items()):
+            if i in live:
+                if _maxdiff(np.asarray(v), r_flip(live[i])) > 1e-12:
+                    return table.bad(core.problem("flip cache entry of a live term is not its flip", check="cache-values", **base))
+                live.setdefault(id(v), np.asarray(v))
+        for key, v in list((cache.get("expm", {}) if hasattr(cache, "get") else {}).items()):
+            if isinstance(key, tuple) and len(key) == 2 and key[0] in live:
+                if _maxdiff(np.asarray(v), ref.expm_general(key[1] * live[key[0]])) > 1e-10:
+                    return table.bad(core.problem("expm cache entry of a live term is not its exponential", check="cache-values", **base))
+    return table.ok(key=core.sig_key(cell), nontrivial=True, outcome="cache:%s:%s" % (mode, "cyc" if cyc else "open"))
 
 
 def cache_cells():
     cells = []
-    for L in (3, 4, 6):
+    for L, cyc in ((3, False), (3, True), (4, True), (6, True)):
         for mode in ("held", "inplace", "released"):
             for fn in ("scale", "conj", "shift"):
-                for x in ("real", "imag"):
-                    for h1 in ((False,) if mode == "released" else (False, True)):
-                        cells.append({"L": L, "mode": mode, "fn": fn, "x": x, "h1": h1})
+                for h1, kind in ((False, "arr"), (True, "arr"), (False, "qarr")):
+                    cells.append({"L": L, "cyclic": cyc, "mode": mode, "fn": fn, "h1": h1, "kind": kind})
     return cells
 
 
